@@ -29,6 +29,7 @@
 #include "dbformat.h"
 #include "memtable.h"
 #include "skiplist.h"
+#include "util/verif.h"
 
 /*
  * MemTable
@@ -87,11 +88,13 @@ ldb_memtable_destroy(ldb_memtable_t *mt) {
 
 void
 ldb_memtable_ref(ldb_memtable_t *mt) {
+  LCDB_ACC("memref", mt, 1);
   ++mt->refs;
 }
 
 void
 ldb_memtable_unref(ldb_memtable_t *mt) {
+  LCDB_ACC("memref", mt, 1);
   --mt->refs;
 
   assert(mt->refs >= 0);
